@@ -42,7 +42,7 @@ THEOREMS = [NS + t for t in [
     "witness_checkout_path", "witness_rebase_drop", "witness_rebase_squash", "witness_cherry_pick_batch",
     "witness_reset_unrecorded", "witness_reset_hard_same_head", "witness_reset_forward", "witness_stash_push_unrecorded"]]
 CORPUS = os.path.join(C.VERIF, "corpus", "C13", "scenarios.jsonl")
-WORKERS = 12
+WORKERS = 16
 MANAGED = ["pre-commit", "prepare-commit-msg", "post-commit", "pre-rebase", "post-checkout", "post-merge", "pre-push",
            "post-rewrite", "reference-transaction"]
 ZERO = "0" * 40
@@ -437,8 +437,8 @@ def run(tier, seed):
         res.broken_tie("build", out[-3000:])
         return res.finish()
     # 4. corpus, then generated twin runs
-    corpus = load_corpus()
-    n = 20 if tier == "quick" else 400
+    corpus = [j for j in load_corpus() if tier == "thorough" or j.get("tier") != "thorough"]
+    n = 16 if tier == "quick" else 400
     jobs = [gen_job(seed * 100000 + i, "agree" if i % 2 == 0 else "full") for i in range(n)]
     outs, ties = phase(res, corpus, "corpus")
     outs2, ties2 = phase(res, jobs, "gen")
